@@ -25,7 +25,7 @@
 (*    Unambiguous   Print(v) = Print(w) => v = w                                                     *)
 (*    ParsersTotal  no input makes a parser panic                                                    *)
 (* They are expected to FAIL on the present design; every counterexample is printed                  *)
-(* (<<"RTC", kind, chars>>, <<"AMB", ...>>, <<"PANIC", parser, chars>>) and handed to the Go driver; *)
+(* (<<"RTC", kind, level, chars>>, <<"AMB", ...>>, <<"PANIC", parser, chars>>) and handed to the Go driver; *)
 (* only what the real code then does, judged by ValueTrace.tla, produces a verdict.                  *)
 EXTENDS Integers, Sequences, FiniteSets, TLC, ValueTextC
 
@@ -232,8 +232,13 @@ ParsersTotal == \A p \in Parsers : \A s \in Strs(PAlpha(p), PLen(p)) : Parser(p,
 VARIABLE c
 
 InitRT == \E kind \in RTKinds : \E s \in IdStrs : c = [kind |-> kind, s |-> s]
+OwnOK(kind, s)    == OwnParser(kind, Printed(kind, s)) = Wanted(kind, s)
+ObjOK(kind, s)    == ParseObj(Printed(kind, s)) = Wanted(kind, s)
+TripleOK(kind, s) == ParseTriple(InTriple(kind, Printed(kind, s))) = WantedTriple(kind, Wanted(kind, s))
 ReportRT ==
-    /\ (IsValue(c.kind, c.s) /\ ~RoundTripOK(c.kind, c.s)) => PrintT(<<"RTC", c.kind, c.s>>)
+    /\ (IsValue(c.kind, c.s) /\ ~OwnOK(c.kind, c.s))    => PrintT(<<"RTC", c.kind, "own", c.s>>)
+    /\ (IsValue(c.kind, c.s) /\ ~ObjOK(c.kind, c.s))    => PrintT(<<"RTC", c.kind, "obj", c.s>>)
+    /\ (IsValue(c.kind, c.s) /\ ~TripleOK(c.kind, c.s)) => PrintT(<<"RTC", c.kind, "triple", c.s>>)
     /\ (IsValue(c.kind, c.s) /\ Len(c.s) <= AmbLen /\ ~UnambiguousAt(c.kind, c.s)) => PrintT(<<"AMB", c.kind, c.s>>)
 SpecRT == InitRT /\ [][UNCHANGED c]_c
 
